@@ -191,6 +191,13 @@ where
                     acc.notes.push(format!("harness panicked on item {i}"));
                     acc.add("harness_errors", 1);
                 }
+                // An execution that ends while a task is suspended in the middle of unwinding leaves
+                // this OS thread's panic count raised; Shuttle then behaves differently on this
+                // thread (everything looks like "already panicking"). Never reuse such a thread.
+                let tainted = std::thread::panicking();
+                if tainted {
+                    acc.add("workers_retired_panic_count_left_raised", 1);
+                }
                 let mut line = serde_json::to_string(&acc.to_json()).unwrap();
                 line.push('\n');
                 let _ = out.write_all(line.as_bytes());
@@ -198,7 +205,7 @@ where
                 cells[1 + slot].store(0, Ordering::SeqCst);
                 // Shuttle deliberately leaks the stack contents of a failing execution, and the
                 // explorers run millions of those: retire a worker that has grown large
-                if rss_mb() > 2_500 {
+                if rss_mb() > 2_500 || tainted {
                     break;
                 }
             }
